@@ -6,7 +6,7 @@ From Coq Require Import Permutation.
 From Clikit Require Import Base.Prelude Base.Res Model.Conv Model.Format Model.Parser Model.Resolver Model.Run
      Model.Tokenizer Model.Gate Model.Switches Proofs.ResolverLemmas Proofs.SwitchesLemmas
      Proofs.HelpSamePageLemmas Proofs.HelpRunLemmas Proofs.SwitchesHelpLemmas Proofs.HelpAnywhereLemmas
-     Model.Question Model.QuestionText Proofs.SwitchesQuestionLemmas.
+     Proofs.HelpAnywhereErrLemmas Proofs.HelpAnywhereVersionLemmas Model.Question Model.QuestionText Proofs.SwitchesQuestionLemmas.
 
 (* Placement independence: the settings depend only on which switches are among the option tokens. *)
 Theorem settings_perm : forall debug l l', Permutation l l' -> io_settings debug l = io_settings debug l'.
@@ -97,7 +97,7 @@ Print Assumptions settings_table_ansi.
 (* With C18: "the no-interaction switch makes questions return their defaults".  The interaction flag of the run's IO
    (line_interactive = s_interactive of the settings create_io computes from the line) is what Question.ask reads through
    io.is_interactive(); the question models of C18 (Model/Question.v, Model/QuestionText.v) take it as their first
-   parameter.  For EVERY application, EVERY line carrying "-n" or "--no-interaction" among its option tokens (anywhere
+   argument.  For EVERY application, EVERY line carrying "-n" or "--no-interaction" among its option tokens (anywhere
    before the first "--", whatever else is on the line, whatever the line resolves to) the flag is off, and every
    question asked with it - choice (single / multi-select), confirmation (case-insensitive and case-sensitive pattern),
    plain question with or without validator - returns its default, reads no line and writes nothing, whatever the
@@ -306,6 +306,48 @@ Proof.
   apply (help_anywhere_default_none cfg a debug path rest Hb Hc Hp Hn Hh (wants_help_in sw _ Hs Hin) fx x Hpa Hv1 Hv2 Hst b p Hw d ds z Hd H1 H3).
 Qed.
 Print Assumptions help_switch_anywhere_first_default_when_none_parses.
+
+(* The two semantic hypotheses of the theorems above, characterised.
+   (1) The help command's own lenient parse can only fail with a VALUE error, when the options its format lists are
+   well-formed objects (help_options_ok: a multi-valued option requires a value, the default of an option that does not
+   require one converts - what Option's constructor guarantees).  Only a typed GLOBAL option can cause it
+   (Example anywhere_typed_global_option: "--level=x -h"); DefaultApplicationConfig's seven options cannot.
+   (2) "The parse does not set the version option" has a syntactic criterion, for configurations whose global options
+   include the version option as DefaultApplicationConfig defines it (defines_version: long name "version", short name
+   "V"): no option token of the line spells it - no token "--version..." / "--V...", no single-dash token holding the
+   letter V (no_version_spelling).  The parser files an option under the name it was FOUND by, so nothing else can set it,
+   wherever the lenient parse stops (Proofs/HelpAnywhereVersionLemmas.v: an invariant on the keys of the option scratch
+   map over arbitrary tokens).
+   With both: help_switch_anywhere_closed_form - for every such line the run prints the page of that command exactly when
+   the command's lenient parse of the line succeeds. *)
+Theorem help_parse_fails_only_with_a_value_error : forall cfg a toks k,
+  build_app cfg = Ok a -> default_help_config cfg = true -> help_options_ok a = true ->
+  help_line_parse a toks = Err k -> k = ValueError.
+Proof. exact help_line_parse_errors. Qed.
+Print Assumptions help_parse_fails_only_with_a_value_error.
+Theorem help_parse_sets_version_only_when_spelled : forall cfg a toks fx x,
+  build_app cfg = Ok a -> default_help_config cfg = true -> defines_version cfg = true ->
+  help_line_parse a toks = Ok (fx, x) -> no_version_spelling (option_tokens toks) = true ->
+  args_is_option_set fx x S_version = false.
+Proof. exact help_line_version_not_set. Qed.
+Print Assumptions help_parse_sets_version_only_when_spelled.
+Theorem help_switch_anywhere_closed_form : forall cfg a debug path rest sw b p,
+  build_app cfg = Ok a -> default_help_config cfg = true -> defines_version cfg = true ->
+  forallb lead_ok path = true -> path <> [] ->
+  (match path with t :: _ => str_eqb t S_help = false | [] => True end) ->
+  sw = T_help \/ sw = T_h -> In sw (option_tokens rest) -> no_version_spelling (option_tokens rest) = true ->
+  starts_stopped rest = true ->
+  walk (named_of (ap_cmds a)) None path = Ok (Some (b, p)) -> defaults_of (b_subs b) = [] ->
+  sm_action (run_summary debug a (path ++ rest)) =
+    match help_line_parse a (path ++ rest) with
+    | Err k => AError k
+    | Ok _ => match parse (b_fmt b) true (path ++ rest) with Ok _ => AHelpCmd p | Err k => AHelpFail k end
+    end.
+Proof.
+  intros cfg a debug path rest sw b p Hb Hc Hv Hp Hn Hh Hs Hin Hno Hst Hw Hd.
+  exact (help_anywhere_closed_that_command cfg a debug path rest Hb Hc Hv Hp Hn Hh (wants_help_in sw _ Hs Hin) Hno b p Hst Hw Hd).
+Qed.
+Print Assumptions help_switch_anywhere_closed_form.
 
 Theorem version_switch : forall debug a toks path f x,
   wants_help (option_tokens toks) = false -> resolve a toks = Ok (path, f, x) ->
@@ -542,3 +584,24 @@ Example no_interaction_example :
     asks [SRV; ADD; [DASH; DASH]; T_n] = {| o_end := Answered (AOne ADD); o_lines_read := 1; o_errors_printed := 0; o_prompts := 1 |}
   | Err _ => False end.
 Proof. vm_compute. repeat split; auto. Qed.
+
+(* the criteria of help_switch_anywhere_closed_form on the example configuration; a typed global option "--level INT" is
+   what a value error of the help command's own parse needs *)
+Definition LEVEL : str := [108;101;118;101;108]%N.
+Definition T_level_x : str := [45;45;108;101;118;101;108;61;120]%N.   (* --level=x *)
+Definition o_level : opt := {| o_long := LEVEL; o_short := None; o_flags := 8 + 1 + 512; o_default := VNone |}.
+Definition cfg5 : appcfg := {| ac_opts := global_opts ++ [o_level]; ac_args := []; ac_cmds := ac_cmds cfg2 |}.
+Example anywhere_criteria_hold :
+  match build_app cfg2 with
+  | Ok a => help_options_ok a = true /\ defines_version cfg2 = true /\
+            no_version_spelling (option_tokens [T_q; T_name; FOO; T_h; T_vv]) = true /\
+            no_version_spelling [T_qV] = false /\ no_version_spelling [T_ddV] = false /\
+            no_version_spelling [T_V] = false /\ no_version_spelling [T_version] = false
+  | Err _ => False end.
+Proof. vm_compute. repeat split. Qed.
+Example anywhere_typed_global_option :
+  match build_app cfg5 with
+  | Ok a => help_options_ok a = true /\ default_help_config cfg5 = true /\
+            sm_action (run_summary false a [CMD; T_level_x; T_h]) = AError ValueError
+  | Err _ => False end.
+Proof. vm_compute. repeat split. Qed.
